@@ -31,8 +31,20 @@ func checkC02(c *Ctx, r *Report) {
 		}
 		// every hashing call is on the pieceLength > 0 side
 		nh, bad := 0, 0
+		// a call to a helper of the package that does the hashing counts as a hashing call
+		hashingHelper := func(cs *CallSite) (*ssa.Function, bool) {
+			sf := cs.Instr.Common().StaticCallee()
+			if sf == nil || sf.Pkg != fn.Pkg || sf == fn {
+				return nil, false
+			}
+			return sf, len(callsInNamed(sf, "core.PieceHash", "core.PieceSum", "io.CopyN")) > 0 && sf.Name() != "PieceSum" && sf.Name() != "PieceHash"
+		}
 		for _, cs := range callsIn(fn) {
-			switch cs.Callee {
+			callee := cs.Callee
+			if _, isH := hashingHelper(cs); isH {
+				callee = "io.CopyN"
+			}
+			switch callee {
 			case "core.PieceHash", "core.PieceSum", "io.CopyN":
 				nh++
 				if !guardedBy(cs.Instr, func(cond ssa.Value, val bool) int {
@@ -67,6 +79,25 @@ func checkC02(c *Ctx, r *Report) {
 				}
 			}
 		})
+		if !usesPL {
+			// through a helper: the parameter is passed on and bounds the copy there
+			for _, cs := range callsIn(fn) {
+				sf, isH := hashingHelper(cs)
+				if !isH {
+					continue
+				}
+				for i, a := range cs.Instr.Common().Args {
+					if a != ssa.Value(pl) || i >= len(sf.Params) {
+						continue
+					}
+					for _, cn := range callsInNamed(sf, "io.CopyN") {
+						if cn.Instr.Common().Args[2] == ssa.Value(sf.Params[i]) {
+							usesPL = true
+						}
+					}
+				}
+			}
+		}
 		r.Check(usesPL, s1, fn, "piece size = pieceLength", nil, "chunks cut by the parameter", "the generator does not cut pieces by its pieceLength parameter")
 	}
 	// checksum family
@@ -191,8 +222,18 @@ func checkC02(c *Ctx, r *Report) {
 	if g := r.MustFunc(p1, "(*lib/metainfogen.pieceLengthConfig).get"); g != nil {
 		okStart, okBreak := false, false
 		instrsOf(g, func(in ssa.Instruction) {
-			if ia, isIA := in.(*ssa.IndexAddr); isIA && isConstZero(ia.Index) && mentionsField(ia.X, "lib/metainfogen.pieceLengthConfig.ranges") {
-				okStart = true
+			if ia, isIA := in.(*ssa.IndexAddr); isIA && mentionsField(ia.X, "lib/metainfogen.pieceLengthConfig.ranges") {
+				if isConstZero(ia.Index) {
+					okStart = true
+				}
+				// the position of the match is tracked instead of its value: it starts at 0
+				if phi, isPhi := ia.Index.(*ssa.Phi); isPhi {
+					for _, e := range phi.Edges {
+						if isConstZero(e) {
+							okStart = true
+						}
+					}
+				}
 			}
 			if iff, isIf := in.(*ssa.If); isIf {
 				if b, isB := iff.Cond.(*ssa.BinOp); isB && b.Op == token.LSS && b.X == g.Params[1] && mentionsField(b.Y, "lib/metainfogen.rangeConfig.fileSize") {
@@ -212,7 +253,26 @@ func checkC02(c *Ctx, r *Report) {
 		ok := false
 		for _, cs := range callsInNamed(gen, "core.NewMetaInfo") {
 			a := cs.Instr.Common().Args
-			if mentionsCall(a[2], "(*lib/metainfogen.pieceLengthConfig).get") && mentions(a[2], func(v ssa.Value) bool {
+			viaGet := mentionsCall(a[2], "(*lib/metainfogen.pieceLengthConfig).get") || mentions(a[2], func(v ssa.Value) bool {
+				// an accessor of the package whose every return is get(its parameter)
+				cl, isC := v.(*ssa.Call)
+				if !isC {
+					return false
+				}
+				h := cl.Common().StaticCallee()
+				if h == nil || h.Pkg != gen.Pkg || len(h.Blocks) == 0 {
+					return false
+				}
+				n := 0
+				for _, ret := range returnsOf(h) {
+					if len(ret.Results) != 1 || !isCallTo(unspill(ret.Results[0]), "(*lib/metainfogen.pieceLengthConfig).get") {
+						return false
+					}
+					n++
+				}
+				return n > 0
+			}, 5)
+			if viaGet && mentions(a[2], func(v ssa.Value) bool {
 				cl, isC := v.(*ssa.Call)
 				return isC && lastSeg(calleeName(cl.Common())) == "Size"
 			}, 5) {
